@@ -14,7 +14,7 @@ import sys
 import tempfile
 import threading
 
-from . import model, simsched
+from . import model, scratch, simsched
 from .runner import HarnessError, SubjectFailure
 
 BASE_MTIME = 1_500_000_000
@@ -99,7 +99,7 @@ def bindir():
     for real gwf sub-processes)."""
     if _BINDIR[0] and os.path.isdir(_BINDIR[0]):
         return _BINDIR[0]
-    base = "/dev/shm" if os.path.isdir("/dev/shm") else None
+    base = scratch.base()
     d = tempfile.mkdtemp(prefix="gwfsimbin", dir=base)
     for name in simsched.CLIENT_NAMES:
         p = os.path.join(d, name)
@@ -183,7 +183,7 @@ class Project:
     tick_step = 10  # seconds between two ticks (a fraction exercises sub-second mtimes)
 
     def __init__(self, desc, backend="slurm", config=None, first_id=1001, subdirs=()):
-        base = "/dev/shm" if os.path.isdir("/dev/shm") else None
+        base = scratch.base()
         self.dir = os.path.realpath(tempfile.mkdtemp(prefix="gwfproj", dir=base))
         self.backend = backend
         self.sim = simsched.SimCluster(backend, first_id=first_id) if backend in ("slurm", "sge", "lsf") else None
@@ -427,7 +427,7 @@ class Project:
         if self._server is not None:
             return self._sock
         proj = self
-        self._sock = os.path.join(tempfile.mkdtemp(prefix="gwfsock", dir="/dev/shm" if os.path.isdir("/dev/shm") else None), "s")
+        self._sock = os.path.join(tempfile.mkdtemp(prefix="gwfsock", dir=scratch.base()), "s")
         self._lock = threading.Lock()
 
         class H(socketserver.StreamRequestHandler):
